@@ -11,7 +11,7 @@ from xmc.pathmodel import Path, align, norm_ws
 ID = "C06"
 LEVEL = "model_checking"
 TECHNIQUE = "explicit-state small-scope exploration: every string of bounded length over an adversarial fragment alphabet x every text-bearing channel x reference placement x language mode x container, executed on the implementation; recovered text compared character for character and document skeleton compared with the inert-text run"
-CLAIM = ("Every concatenation up to the bound of 24 adversarial fragments (XML metacharacters, entity/CDATA/comment look-alikes, quotes, "
+CLAIM = ("Every concatenation up to the bound of 27 adversarial fragments (XML metacharacters, entity/CDATA/comment look-alikes, quotes, "
          "braces, astral and RTL Unicode, edge/double spaces) is placed in each of 15 text-bearing channels, with and without embedded "
          "references, in single- and two-language forms; the real converter runs and a strict parser must recover the text from the "
          "channel's place, and the element/attribute skeleton must equal that of the same form holding the inert text 'x'.")
@@ -24,14 +24,15 @@ ASSUMPTIONS = [
     "C0/C1 control characters, newline and tab are outside the statement's alphabet and not explored",
 ]
 BOUND = {
-    "quick": "strings of <=2 fragments (600) x 15 channels x applicable reference placements x {one, two languages} on dict input; single fragments additionally through md and xlsx",
-    "thorough": "strings of <=3 fragments (14 424) x 15 channels x reference placements x language modes on dict input; strings of <=2 through md and xlsx",
+    "quick": "strings of <=2 fragments (756) x 15 channels x applicable reference placements x {one, two languages} on dict input; single fragments additionally through md and xlsx",
+    "thorough": "strings of <=3 fragments (20 439) x 15 channels x reference placements x language modes on dict input; strings of <=2 through md and xlsx",
 }
 # as-built additions to the bound (kept next to BOUND so that the evidence reports them)
-BOUND = {k: v + "; plus: " + 'the same text in a second cell (other row / other language) and a reference-bearing neighbour cell emitted just before the cell under test' for k, v in BOUND.items()}
+BOUND = {k: v + "; plus: " + 'a function look-alike fragment (pulldata(..)); a question with a guidance hint and media emitted before the cell under test; the same text in a second cell (other row / other language) and a reference-bearing neighbour cell emitted just before the cell under test' for k, v in BOUND.items()}
 
 FRAGS = ["<", ">", "&", '"', "'", "]]>", "&amp;", "&#60;", "&lt;", "&quot;", "&nbsp;", "<!--", "-->", "<![CDATA[",
-         '<output value="x"/>', "</label>", "{", "}", "$", "a", "é", "\U0001F600", "שלום", "a  b", " ", "-"]
+         '<output value="x"/>', "</label>", "{", "}", "$", "a", "é", "\U0001F600", "שלום", "a  b", " ", "-",
+         "pulldata('pf', 'a', 'b', 'c')"]  # (instance('x')/.. in a label is an output by design, like ${x}; a message that is literally jr:itext('id') is passed through as a reference)
 SIGNIFICANT = set("<>&\"']")
 CHANNELS = ["label", "hint", "guidance_hint", "constraint_message", "required_message", "glabel", "clabel",
             "cextra", "default", "form_title", "version", "appearance", "attrval", "instval", "bindval"]
@@ -82,6 +83,9 @@ def expand(block, tier):
                     # plain text whose neighbour (the other language's cell of the same row, emitted just before it) holds a reference
                     if ch in LANG_CH and lang and ref == "none" and (L == 1 or tier == "thorough"):
                         yield {"ch": ch, "s": s, "ref": ref, "lang": lang, "fmt": "dict", "neigh": True}
+                    # a question with a guidance hint (another itext form) emitted before the cell under test
+                    if ch in OUTPUT_CH and (L == 1 or tier == "thorough") and ref in ("none", "after"):
+                        yield {"ch": ch, "s": s, "ref": ref, "lang": lang, "fmt": "dict", "guide": True}
                     # the same text written in a second cell of the same kind (another row, or the other language)
                     if ch in OUTPUT_CH and (L == 1 or tier == "thorough") and ref in ("none", "between", "after"):
                         yield {"ch": ch, "s": s, "ref": ref, "lang": lang, "fmt": "dict", "twin": True}
@@ -95,13 +99,17 @@ def with_ref(s, ref):
     return {"none": s, "before": "${t0} " + s, "after": s + " ${t0}", "between": s + " ${t0} " + s}[ref]
 
 
-def build(ch, text, lang, twin=False, neigh=False):
+def build(ch, text, lang, twin=False, neigh=False, guide=False):
     q = {"type": "select_one c", "name": "q", "label": "Q"}
     q2 = {"type": "select_one c", "name": "q2", "label": "Q2"}
     rows = [{"type": "text", "name": "t0", "label": "T0"}, {"type": "begin group", "name": "g", "label": "G"}, q, {"type": "end group"}]
     if twin:
         rows[3:3] = [q2]
         rows += [{"type": "begin group", "name": "g2", "label": "G2"}, {"type": "text", "name": "t2", "label": "T2"}, {"type": "end group"}]
+    if guide:
+        pre = {"type": "text", "name": "pre", "label": "P", "hint": "PH", "media::image": "p.png"}
+        pre.update({"guidance_hint::en": "GH", "guidance_hint::fr": "GHf"} if lang else {"guidance_hint": "GH"})
+        rows[1:1] = [pre]
     chs = [{"list_name": "c", "name": "x", "label": "X"}, {"list_name": "c", "name": "y", "label": "Y"}]
     st = {}
 
@@ -136,7 +144,7 @@ def build(ch, text, lang, twin=False, neigh=False):
         if ch == "required_message":
             q["required"] = "yes"
     elif ch == "glabel":
-        put(rows[1], "label")
+        put(next(r for r in rows if r.get("name") == "g"), "label")
     elif ch == "clabel":
         put(chs[0], "label")
         if lang:
@@ -170,8 +178,8 @@ def skeleton(el):
 
 
 @functools.lru_cache(maxsize=None)
-def inert_skeleton(ch, ref, lang, fmt, twin=False, neigh=False):
-    wb = build(ch, with_ref("x", ref), lang, twin, neigh)
+def inert_skeleton(ch, ref, lang, fmt, twin=False, neigh=False, guide=False):
+    wb = build(ch, with_ref("x", ref), lang, twin, neigh, guide)
     src, kw = render.render(wb, fmt)
     out = run_convert(src, **kw)
     assert out.kind == "ok", (ch, ref, lang, out.msg)
@@ -260,7 +268,8 @@ def check_one(case):
     text = with_ref(s, ref)
     twin = bool(case.get("twin"))
     neigh = bool(case.get("neigh"))
-    wb = build(ch, text, lang, twin, neigh)
+    guide = bool(case.get("guide"))
+    wb = build(ch, text, lang, twin, neigh, guide)
     if fmt == "md" and not render.md_representable(wb):
         return {"outcome": "not-representable", "nt": False, "viol": [], "tr": 1}
     src, kw = render.render(wb, fmt)
@@ -277,7 +286,7 @@ def check_one(case):
     except O.ParseFailure as e:
         return {"outcome": "ok", "nt": False, "viol": [(f"not-wellformed:{sig}", f"s={s!r}: {e}")], "tr": ntr}
     sk = skeleton(obs.root)
-    if sk != inert_skeleton(ch, ref, lang, fmt, twin, neigh):
+    if sk != inert_skeleton(ch, ref, lang, fmt, twin, neigh, guide):
         viol.append((f"skeleton-changed:{sig}", f"s={s!r}"))
     loc = locate(obs, ch, lang, pick_lang="fr") if neigh else locate(obs, ch, lang)
     stripped = ch in SURVEY_CH or fmt != "dict"
